@@ -410,3 +410,102 @@ func runC15History(t *testing.T, rec *Recorder, r *rand.Rand) {
 		}
 	}
 }
+
+// TestDriveC10Run: the real controller.Run (RPM monitor and control loop as the two concurrent
+// goroutines they are) behind plants that turn only above a threshold or never, constant curve,
+// windows 1..50, stored characterisation (so that regulation starts at once).
+func TestDriveC10Run(t *testing.T) {
+	out := os.Getenv("VERIF_OUT")
+	if out == "" {
+		t.Skip("VERIF_OUT not set")
+	}
+	seed := int64(envInt("VERIF_SEED", 1))
+	n := envInt("VERIF_N", 4)
+	rec, err := NewRecorder(out)
+	must(err)
+	defer rec.Close()
+	r := rand.New(rand.NewSource(seed))
+	for i := 0; i < n; i++ {
+		sseed := r.Int63()
+		synctest.Test(t, func(t *testing.T) { runC10RunScenario(rec, rand.New(rand.NewSource(sseed))) })
+	}
+}
+
+func runC10RunScenario(rec *Recorder, r *rand.Rand) {
+	dir := scratchDir("verif.c10r.")
+	defer os.RemoveAll(dir)
+	win := []int{1, 2, 3, 5, 10, 20, 50}[r.Intn(7)]
+	mn := 100 + r.Intn(120)
+	mx := mn + 2 + r.Intn(30)
+	if mx > 255 {
+		mx = 255
+	}
+	rf := RunFan{ID: "f1", CurveErrAt: -1, Rest: [3]string{"ok", "ok", "ok"}, Pwm0: r.Intn(256), Mode0: 2, Quant: 1}
+	rf.Spec = FanSpec{Kind: "hwmon", HasRpm: true, HasMode: r.Intn(3) > 0, NeverStop: true, N: win,
+		CfgMin: ip(mn), CfgMax: ip(mx), Alg: []AlgSpec{{T: "direct"}, {T: "rate", M: 10}, DefaultPid(200)}[r.Intn(3)]}
+	m := map[int]int{}
+	for v := 0; v <= 255; v++ {
+		m[v] = v
+	}
+	rf.Spec.CfgMap = m
+	// the fan turns iff pwm > theta; never when theta is beyond the maximum
+	rf.Theta = mn - 1 + r.Intn(mx-mn+4)
+	if r.Intn(3) == 0 {
+		rf.Theta = 1000
+	}
+	cfg := RunCfg{Parallel: true, Dir: dir, Fans: []RunFan{rf}, Window: win, RpmPollMs: []int{200, 1000}[r.Intn(2)], TickMs: 200}
+	cv := []int{0, 0, 5, 60}[r.Intn(4)]
+	cfg.CurveValue = func(n int) int { return cv }
+	// store the characterisation first (same database), with a fan that turns everywhere
+	{
+		null, _ := NewRecorder(os.DevNull)
+		pc := cfg
+		pc.Fans = []RunFan{rf}
+		pc.Fans[0].Theta = 0
+		h0 := NewRunHarness(null, pc)
+		ctx0, cancel0 := context.WithCancel(context.Background())
+		h0.OnEvent = func(n int, fanId, event string) {
+			if event == "LoopStarted" {
+				cancel0()
+			}
+		}
+		h0.Start(ctx0, nil)
+		h0.Wait()
+		h0.Close(false)
+		cancel0()
+		null.Close()
+	}
+	rec.NextTrace()
+	h := NewRunHarness(rec, cfg)
+	defer h.Close(false)
+	// the fan was spinning at some speed before (prior RPM average), or never spun
+	h.fs["f1"].fan.SetRpmAvg([]float64{0, 0, 1, 20, 800, 3000, 20000}[r.Intn(7)])
+	ctx, cancel := context.WithCancel(context.Background())
+	defer cancel()
+	var once sync.Once
+	stop := func(why string) {
+		once.Do(func() {
+			rec.Emit(Ev{"ev": "Cancel", "why": why, "vt": h.vt()})
+			cancel()
+		})
+	}
+	h.OnEvent = func(n int, fanId, event string) {
+		if event == "RestoreEnd" {
+			go stop("regulation ended")
+		}
+	}
+	done := make(chan struct{})
+	go func() {
+		// enough virtual time for the whole ladder: (max-min+2) steps of at most (12n+2) polls
+		budget := time.Duration((mx-mn+4)*(12*win+4)*cfg.RpmPollMs) * time.Millisecond
+		select {
+		case <-time.After(budget + 10*time.Second):
+			stop("budget")
+		case <-done:
+		}
+	}()
+	h.Start(ctx, Ev{"scenario": Ev{"c10run": true, "theta": rf.Theta, "cv": cv, "win": win}})
+	h.Wait()
+	close(done)
+	h.Final()
+}
